@@ -23,7 +23,9 @@ MSG2KIND = {E.EMPTY: 'empty', E.OBSSIZE: 'obssize', E.SAMPSIZE: 'sampsize', E.OB
             E.SAMPDUP: 'sampdup', E.OBSMDSIZE: 'obsmdsize', E.SAMPMDSIZE: 'sampmdsize'}
 RULE = ('random well-bracketed programs over seterr/seterrcall/geterrcall/errcheck/errstate (depth <= 3 nesting, '
         "<= 7 instructions per level, 'all', unknown kinds/reactions, exits by exception) with the profile compared "
-        'after every instruction, plus the 7x5 reaction table at constructor / filter / collapse call sites; '
+        'after every instruction, plus the reaction table at the four errcheck call sites: constructor (7 kinds x 5 reactions), filter '
+        '(empty on the result; the six other kinds on a table built while the kind was ignored and then filtered in place), '
+        'update_ids(inplace=False) (obsdup/sampdup on the renamed copy) and collapse (empty); '
         'non-trivial = a program that changes the profile at least once or a triggering reaction cell; distinct by case hash')
 TRUSTED = ['translator tools/py2v (fail-closed, self-tested by tools/py2v/selftest.py) with its signature file '
            'tools/py2v/sigs/err.json and the hand-written types coq/Model/ErrTypes.v; the generated model is also '
@@ -207,6 +209,27 @@ def run_react(c):
     elif site == 'collapse':
         t = emptied if v['empty'] else base
         ev = observe(lambda: t.collapse(lambda i, m: 'g', axis='sample', norm=False) and None)
+    elif site == 'update_ids':
+        # errcheck(result) at the end of update_ids(inplace=False): the renamed COPY is what is checked
+        # (with inplace=True update_ids refuses duplicates before anything is written, whatever the
+        # profile says: upstream issue #892, outside the reaction table)
+        t = Table(data, ['i0', 'i1'], ['i10', 'i11', 'i12'])
+        ax = 'observation' if c['errkind'] == 'obsdup' else 'sample'
+        src = list(t.ids(axis=ax))
+        idmap = {src[0]: 'q', src[1]: 'q'} if c['trigger'] else {src[0]: 'q'}
+        ev = observe(lambda: t.update_ids(idmap, axis=ax, strict=False, inplace=False) and None)
+    elif site == 'filter_inplace':
+        # a table that was built while the kind was ignored, then an in-place filter (keeping every id
+        # of the axis the defect is not on) under the configured reaction: filter ends in errcheck(table)
+        E.seterr(all='ignore')
+        t = Table(data, oids, sids, omd, smd)
+        reset()
+        E.seterr(**{c['errkind']: c['reaction']})
+        if c['reaction'] == 'call':
+            E.seterrcall(c['errkind'], _cb(c['errkind'], 1))
+        ax = 'sample' if c['errkind'].startswith('obs') else 'observation'
+        keep = list(dict.fromkeys(t.ids(axis=ax)))
+        ev = observe(lambda: t.filter(keep, axis=ax, inplace=True) and None)
     out = [['check', ev], snap()]
     reset()
     return out
@@ -370,28 +393,34 @@ def gen_prog(rng, depth, maxlen):
     return prog
 
 
+def _defect(k, trig):
+    """constructor arguments of a 2 x 3 table that trigger exactly kind k (or none)"""
+    rows, cols = 2, 3
+    oids, sids, omd, smd = [0, 1], [10, 11, 12], None, None
+    if trig:
+        if k == 'empty':
+            rows, oids = 0, []
+        elif k == 'obssize':
+            oids = [0, 1, 2]
+        elif k == 'sampsize':
+            sids = [10, 11]
+        elif k == 'obsdup':
+            oids = [0, 0]
+        elif k == 'sampdup':
+            sids = [10, 11, 10]
+        elif k == 'obsmdsize':
+            omd = 3
+        elif k == 'sampmdsize':
+            smd = 2
+    return rows, cols, oids, sids, omd, smd
+
+
 def react_cases():
     out = []
     for k in KINDS:
         for r in REACTIONS:
             for trig in (True, False):
-                rows, cols = 2, 3
-                oids, sids, omd, smd = [0, 1], [10, 11, 12], None, None
-                if trig:
-                    if k == 'empty':
-                        rows, oids = 0, []
-                    elif k == 'obssize':
-                        oids = [0, 1, 2]
-                    elif k == 'sampsize':
-                        sids = [10, 11]
-                    elif k == 'obsdup':
-                        oids = [0, 0]
-                    elif k == 'sampdup':
-                        sids = [10, 11, 10]
-                    elif k == 'obsmdsize':
-                        omd = 3
-                    elif k == 'sampmdsize':
-                        smd = 2
+                rows, cols, oids, sids, omd, smd = _defect(k, trig)
                 out.append({'kind': 'react', 'site': 'ctor', 'errkind': k, 'reaction': r, 'trigger': trig,
                             'view': view_of_table_args(rows, cols, oids, sids, omd, smd)})
                 if trig and k in ('obsmdsize', 'sampmdsize'):
@@ -402,6 +431,18 @@ def react_cases():
                                                    n if k == 'sampmdsize' else None)
                             out.append({'kind': 'react', 'site': 'ctor', 'errkind': k, 'reaction': r, 'trigger': True,
                                         'view': v, 'mdkind': mdkind})
+    for k in ('obsdup', 'sampdup'):
+        for r in REACTIONS:
+            for trig in (True, False):
+                oids, sids = ([0, 0] if trig and k == 'obsdup' else [0, 1]), ([10, 10, 12] if trig and k == 'sampdup' else [10, 11, 12])
+                out.append({'kind': 'react', 'site': 'update_ids', 'errkind': k, 'reaction': r, 'trigger': trig,
+                            'view': view_of_table_args(2, 3, oids, sids, None, None)})
+    for k in KINDS[1:]:
+        for r in REACTIONS:
+            for trig in (True, False):
+                rows, cols, oids, sids, omd, smd = _defect(k, trig)
+                out.append({'kind': 'react', 'site': 'filter_inplace', 'errkind': k, 'reaction': r, 'trigger': trig,
+                            'view': view_of_table_args(rows, cols, oids, sids, omd, smd)})
     for site in ('filter', 'collapse'):
         for r in REACTIONS:
             for trig in (True, False):
